@@ -8,15 +8,17 @@ from props.c02 import bits
 import dbutil
 
 PROPS = ('GambitV.Props.C11', 'GambitV.C11')
-TIE = [('GambitV.Tie.PyCsvColumns', 'GambitV.Tie.Py'), ('GambitV.Tie.PyGetattr', 'GambitV.Tie.Py')]
+# the JSON side: the encoder with the exporters' conversion rules writes the documented JSON, which carries what the statement names
+PROPS_EXTRA = [('GambitV.Props.C11Json', 'GambitV.Json'), ('GambitV.Props.C11JsonSpec', 'GambitV.Json')]
+TIE = [('GambitV.Tie.PyCsvColumns', 'GambitV.Tie.Py'), ('GambitV.Tie.PyGetattr', 'GambitV.Tie.Py'), ('GambitV.Tie.PyJson', 'GambitV.Tie.Py'), ('GambitV.Tie.PyJsonProps', 'GambitV.Tie.Py')]
 RULE = ('result sets from real queries (default and strict) on scratch databases whose taxon names / genome descriptions / query labels contain commas, '
         'quotes, LF, CRLF, non-ASCII text; with no-prediction items, unreportable predicted taxa, failed strict results with warnings, inputs without a source '
         'file. CSV: text = Lean writeCsv of the rows built from the attributes of the real result objects, and it parses back (Lean reader, cross-checked '
-        'with csv.reader). JSON: valid JSON whose label / reported taxon / next taxon / closest genomes equal the objects\' attributes. Archive: read back by '
+        'with csv.reader). JSON: the Lean predicate resultsCarried (label / reported taxon / next taxon / closest genomes of every query, in order) on (results object, parsed JSON), and the whole document = the encoder of Model/Json.lean run with the exporter conversion rules - the model ones and the ones read from the current source. Archive: read back by '
         'the real reader against the same database, equal to the original under == and field by field (distances as float32 bit patterns, warnings, error, '
         'parameters incl. chunksize None / 1 / 7, naive and timezone-aware timestamps with and without microseconds, extra metadata). CSV / JSON are also written to a '
         'path (str, Path) and the file read as UTF-8 must carry the same rows / document; other exporter objects with other options are created and used in between. Non-trivial = distinct result set with >= 2 items and at least one awkward character in an exported field.')
-TRUSTED = ['harness/props/c11.py + Driver/C11.lean', 'Python json parser; str() of floats in CSV cells']
+TRUSTED = ['harness/props/c11.py + Driver/C11.lean + Driver/Json.lean', 'Python json parser (the written text is compared as the tree json.loads returns); json.dump calling default= for exactly the objects it cannot write; cattrs unstructure as modelled (attrs classes field by field, other objects passed through); str() of floats in CSV cells']
 ASSUMPTIONS = []
 
 AWK = ['plain', 'com,ma', 'quo"te', 'new\nline', 'crlf\r\nname', 'ünï çödé 大腸菌', ' sp ace ', '"', ',', "it's", 'tab\there',
@@ -65,6 +67,77 @@ def add_second_genomeset(dbdir, rng):
 
 def taxon_proj(t):
 	return None if t is None else {'key': t.key, 'name': t.name, 'rank': t.rank, 'ncbi_id': t.ncbi_id, 'distance_threshold': t.distance_threshold}
+
+
+def _h(s: str) -> str:
+	return s.encode('utf-8').hex()
+
+
+def _f64(x) -> str:
+	import struct
+	return 'F' + str(struct.unpack('<Q', struct.pack('<d', float(x)))[0])
+
+
+def pval_token(o, lineage=False) -> str:
+	"""a results object as the JSON encoder sees it, in the wire form of Driver/Json.lean (the image `JItem.toPVal` etc. of
+	Model/JsonResults.lean): attrs instances with their fields in declaration order, ORM objects with the attributes the exporters may read
+	(a genome's taxon additionally with its lineage under the pseudo-attribute `ancestors(incself=True)`, taken from the real method)"""
+	import attr
+	import numpy as np
+	from datetime import date
+	from pathlib import PurePath
+	from gambit.db import Taxon, AnnotatedGenome, ReferenceGenomeSet
+	if o is None:
+		return 'N'
+	if isinstance(o, (bool, np.bool_)):
+		return 'B1' if o else 'B0'
+	if isinstance(o, (int, np.integer)):
+		return 'I' + str(int(o))
+	if isinstance(o, (float, np.floating)):
+		return _f64(o)
+	if isinstance(o, str):
+		return 'S' + _h(o)
+	if isinstance(o, date):
+		return 'H' + _h(o.isoformat())
+	if isinstance(o, PurePath):
+		return 'H' + _h(str(o))
+	if isinstance(o, (list, tuple)):
+		return 'L[' + ','.join(pval_token(x) for x in o) + ']'
+	if isinstance(o, dict):
+		return 'D{' + ','.join(f'{_h(str(k))}:{pval_token(v)}' for k, v in o.items()) + '}'
+	inst = lambda tag, cls, kvs: f'{tag}{_h(cls)}(' + ','.join(f'{_h(k)}={v}' for k, v in kvs) + ')'
+	if isinstance(o, Taxon):
+		kvs = [(a, pval_token(getattr(o, a))) for a in ('id', 'key', 'name', 'ncbi_id', 'rank', 'distance_threshold')]
+		if lineage:
+			kvs.append(('ancestors(incself=True)', 'L[' + ','.join(pval_token(t) for t in o.ancestors(incself=True)) + ']'))
+		return inst('O', 'Taxon', kvs)
+	if isinstance(o, AnnotatedGenome):
+		kvs = [(a, pval_token(getattr(o, a))) for a in ('key', 'description', 'organism', 'ncbi_db', 'ncbi_id', 'genbank_acc', 'refseq_acc', 'genome_id')]
+		return inst('O', 'AnnotatedGenome', kvs + [('taxon', pval_token(o.taxon, lineage=True))])
+	if isinstance(o, ReferenceGenomeSet):
+		return inst('O', 'ReferenceGenomeSet', [(a, pval_token(getattr(o, a))) for a in ('id', 'key', 'version', 'name', 'description')])
+	if attr.has(type(o)):
+		return inst('A', type(o).__name__, [(f.name, pval_token(getattr(o, f.name))) for f in attr.fields(type(o))])
+	if isinstance(o, (set, frozenset)) or hasattr(o, 'keys'):
+		return pval_token(dict(o)) if hasattr(o, 'keys') else pval_token(sorted(o))
+	return inst('O', type(o).__name__, [])
+
+
+def json_token(d) -> str:
+	"""what `json.loads` returned, in the same wire form"""
+	if d is None:
+		return 'N'
+	if isinstance(d, bool):
+		return 'B1' if d else 'B0'
+	if isinstance(d, int):
+		return 'I' + str(d)
+	if isinstance(d, float):
+		return _f64(d)
+	if isinstance(d, str):
+		return 'S' + _h(d)
+	if isinstance(d, list):
+		return 'L[' + ','.join(json_token(x) for x in d) + ']'
+	return 'D{' + ','.join(f'{_h(k)}:{json_token(v)}' for k, v in d.items()) + '}'
 
 
 def obj_token(obj, paths):
@@ -186,6 +259,12 @@ def check(ctx, case):
 				pf.append(f'JSON export is not valid JSON: {e}')
 				data = None
 			if data is not None:
+				# the statement's predicate, the model's encoder and the conversion rules read from the current source, all three on the
+				# results object as the encoder sees it and on what was written (Driver/Json.lean)
+				pv, jt_ = pval_token(res), json_token(data)
+				lines.append(f'c11.jsonspec {pv} {jt_}')
+				lines.append(f'c11.json json {pv} {jt_}')
+				lines.append(f'pyg.json json {pv} {jt_}')
 				exp, real = [], []
 				for it, jt in zip(res.items, data['items']):
 					exp.append({'label': it.input.label, 'predicted': taxon_proj(it.report_taxon), 'next': taxon_proj(it.classifier_result.next_taxon),
@@ -207,6 +286,13 @@ def check(ctx, case):
 				return lines, pf + [f'archive cannot be read back: {exc_kind(e)}: {str(e)[:200]} (chunksize={res.params.chunksize!r}, tz={case.get("tz")})']
 			if not (back == res):
 				pf.append('archive read back is not equal (==) to the original results')
+			try:
+				adata = json.loads(p.read_text(encoding='utf-8'))
+				apv, ajt = pval_token(res), json_token(adata)
+				lines.append(f'c11.json archive {apv} {ajt}')
+				lines.append(f'pyg.json archive {apv} {ajt}')
+			except Exception as e:
+				pf.append(f'archive is not valid JSON: {e!r}')
 
 			def proj(r):
 				out = {'params': [r.params.classify_strict, r.params.chunksize, r.params.report_closest], 'gset': r.genomeset.key,
